@@ -805,20 +805,29 @@ def gen_opts(rng, nclasses, routes, offers, rich, rel=None, p_accept=0.3):
     return o, notted, accept
 
 
-ORDERED_TYPES = ('text/html', 'text/plain', 'application/json')      # of OFFER_BASES, the ones in the default accept order
+# index of the media types of OFFER_BASES in the default accept-order list (add_default_accept_view_order:
+# text/html, application/xhtml+xml, application/xml, text/xml, text/plain, application/json); the others are not in it
+ORDERED_TYPES = {'text/html': 0, 'text/plain': 4, 'application/json': 5}
+
+
+def offer_sort_key(offer, n):
+    """`sort_accept_offers`' key of a pool offer when the slot holds n distinct offers (max_weight = n): a type that is
+    not in the order list weighs n, a parametrised offer (never in the list) n, a bare one n + 1"""
+    base = offer.split(';')[0]
+    return (ORDERED_TYPES.get(base, n), n if ';' in offer else n + 1)
 
 
 def distinct_offer_keys(offers):
-    """keep the offers whose `sort_accept_offers` key is not taken yet.  Two offers with the SAME key (two parametrised
-    twins of one type, or two types that are both missing from the accept-order list) are ordered by the iteration
-    order of a Python set of strings, i.e. by PYTHONHASHSEED: not a function of the registrations, so neither the model
-    nor the statement says which bucket comes first (see notes/C03.md, "equal offer keys")."""
-    seen, out = set(), []
+    """keep the offers whose `sort_accept_offers` key cannot collide with one already kept, WHATEVER the number n of
+    distinct offers a slot ends up with (1..len).  Two offers with the SAME key are ordered by the iteration order of a
+    Python set of strings, i.e. by PYTHONHASHSEED: not a function of the registrations, so neither the model nor the
+    statement says which bucket comes first (see notes/C03.md, "equal offer keys").  Collisions: two parametrised twins
+    of one type; two types that are both missing from the order list; and a LISTED type whose index equals n together
+    with an unlisted type (text/plain, index 4, in a slot of 4 offers; application/json, index 5, in a slot of 5)."""
+    out = []
     for o in offers:
-        base = o.split(';')[0]
-        key = (base if base in ORDERED_TYPES else '?', ';' in o)
-        if key not in seen:
-            seen.add(key)
+        cand = out + [o]
+        if all(len({offer_sort_key(x, n) for x in cand}) == len(cand) for n in range(1, len(offers) + 1)):
             out.append(o)
     return out
 
